@@ -22,12 +22,22 @@ def jobs(tier):
                        functions=["_vnacal_new_add_common (a/b -> m reduction and its singularity test)", "vnacal_new_add_through"],
                        bound="%s 2x2, 2 frequencies, through given in a/b form; a, b values and the kernel's determinant per frequency symbolic (full double domain)" % t,
                        timeout=300))
+    import C18
+    for j in C18.jobs("quick"):
+        if j.name == "simple_weight_index.UE14":
+            j.name = "solve_simple_singular.UE14"
+            j.defines = j.defines + ["-DDET_SYMBOLIC"]
+            j.canary = False
+            j.imported = True       # shares h_simple_weight_index with C18: the probes of the other variant are not reachable here
+            j.functions = ["_vnacal_new_solve_simple (determinant test of the exactly determined route)"]
+            j.bound = "UE14 2x2, two exactly determined systems; the kernel's determinant symbolic (zero, NaN or any normal number)"
+            J.append(j)
     return J
 
 
 ASSUME = [
     "double complex compiled as double (shim): magnitudes are |x| of real values",
-    "NOT covered: backward stability / residual size, QR orthogonality and least-squares minimality, n > 2, 'astronomically large output' of the n-port conversions, that every call site tests the determinant: decided for the a/b reduction of vnacal_new_add_* (ab_reduction, kernel by assumed contract with any determinant) and for vnacal_apply_m (C01 apply_frame); solve_simple / solve_auto by reading only",
+    "NOT covered: backward stability / residual size, QR orthogonality and least-squares minimality, n > 2, 'astronomically large output' of the n-port conversions, that every call site tests the determinant: decided for the a/b reduction of vnacal_new_add_* (ab_reduction, kernel by assumed contract with any determinant) and for vnacal_apply_m (C01 apply_frame); solve_simple's LU route (solve_simple_singular); its QR route (rank < unknowns) and solve_auto by reading only",
 ]
 TRUSTED = ["CBMC 6.11 IEEE-754 encoding", "CBMC models of ldexp / isnormal"]
 
